@@ -193,6 +193,11 @@ func (e *Engine) RunContracts(pc *PropertyCheck, timeout time.Duration, maxPaths
 		for _, a := range ct.Assumes {
 			pc.Assumed = append(pc.Assumed, "state invariant assumed at entry of "+shortPkg(fn)+"."+sym.FuncKey(fn)+" (not proved inductively): "+a.Src)
 		}
+		for _, a := range ct.Ensures {
+			if a.Assumed && clauseServes(a, pc.ID) {
+				pc.Assumed = append(pc.Assumed, "postcondition of "+shortPkg(fn)+"."+sym.FuncKey(fn)+" assumed at its call sites, NOT proved on its body: "+a.Name+": "+a.Src)
+			}
+		}
 		fkey := sym.FuncKey(fn)
 		if ct.Iface {
 			fkey = "iface:" + ct.Key + "@" + fkey
